@@ -71,6 +71,12 @@ prop("C04", True,
      note="Trusted: go/ssa; accessor calls (currentApp()) return the same object within a callback. NOT decided: independence from block order and import order, equality with the joined specification. Two baseline rows (collector statements, event attributes replaced on re-declaration) are reported as unconfirmed.",
      design="DESIGN.md §3 C04")
 
+prop("C02", True,
+     technique="kind-table agreement: literals enumerated from the .g4 lexer rules (small tokenizer) against tables folded from SSA (map literals, switch constants, enum tables); type-switch coverage of the scope stack; bit-width rule on integer literal parsing",
+     text="Thin claim — decides only table agreement between grammar and listener, necessary for 'nothing declared is altered': each of the 25 built-in type words of NativeDataTypes/E_NativeDataTypes is mapped to a primitive other than NO_Primitive; each of the 10 comparison-operator literals accepted for e_compare_ops is a key of the listener's operator table; each HTTP verb of the lexer is a REST method enum value (three are not: known findings); every statement-bearing scope kind the listener pushes has a case in every function that reads or appends .Stmt through the scope stack; integer literals are parsed with 64/native bits and never converted below 32 bits. Of the three validated mutations only '16-bit enum values' is visible to these rules.",
+     note="Trusted: the generated lexer/parser correspond to the .g4 files; go/ssa constant folding. NOT decided: every value-level fact about the model (presence, optionality, nesting, order, names, REST path accumulation) — in particular 'optional lost inside a sequence' and 'else-branch loses statements' are invisible.",
+     design="DESIGN.md §3 C02")
+
 for i in range(1, 21):
     pid = "C%02d" % i
     if pid not in P:
